@@ -1217,6 +1217,11 @@ def make_se(pt, row, scale=2):
     return pt.SchemaElement(**kw)
 
 
+def annotation_key(row):
+    lg = row["logical"]
+    return (row["type"], row["converted"], None if lg is None else (lg[0], lg[1], lg[2]))
+
+
 def reader_row_name(row):
     lg = row["logical"]
     l = "-" if lg is None else (f"TIMESTAMP({lg[1]},utc={lg[2]})" if lg[0] == "TIMESTAMP" else lg[0])
@@ -1243,6 +1248,7 @@ class Mods:
                             rep["mode"] = "executed on the finite table, not symbolically"
                         ctx.function(f"{mod}.{nm}", fs[nm].sha, rep)
         self.ts_state = {}
+        self.writer_annotations = set()
 
 
 def sym_elem(p, dt, name):
@@ -1745,6 +1751,7 @@ def check_writer(ctx, M, res, timeout, rows_filter=None, roundtrip=True):
                 res.add(f"{nm}[{D}]", PROVED, None, time.time() - t0, EXEC, f"find_type refuses the dtype ({type(ex).__name__}: {str(ex)[:100]}): the write raises")
             continue
         f = se_facts(M.pt, se)
+        M.writer_annotations.add((f["type"], f["converted"], None if f["logical"] is None else (f["logical"][0], f["logical"][1], f["logical"][2])))
         why = spec_annotation_valid(f, row)
         res.add(f"find_type.annotation_is_valid[{D}]", REFUTED if why else PROVED, {"annotation": annotation_name(f), "why": why} if why else None,
                 time.time() - t0, EXEC, f"{annotation_name(f)} type_length={f['type_length']}: legal for the physical type per LogicalTypes.md "
@@ -2108,8 +2115,10 @@ def check(ctx, timeout=10000, side="both", rows_filter=None):
     # cut: the kernel contract the TIME_MILLIS rows rely on, posed as its own obligations first
     if side == "text":
         # C11: only the text / bytes rows of the writer table (encoder output == spec bytes, and decodes back to its input)
+        # and converts_inplace on the un-annotated physical types (+ its symbolic / call-site obligations)
         writer_rows(M.pd)
         ws = check_writer(ctx, M, res, timeout, (lambda D: D in TEXT_ROWS), roundtrip=True)
+        check_converts_inplace(ctx, M, res, timeout, rows_sel=lambda r: r["converted"] is None and r["logical"] is None)
         if ctx is not None:
             ctx.vacuity["covers"] += ws[0] + ws[1]
             ctx.note(f"units contract (text rows only): {ws[1]} rows executed; {time.time() - t0:.1f} s")
@@ -2122,6 +2131,10 @@ def check(ctx, timeout=10000, side="both", rows_filter=None):
         ws = check_writer(ctx, M, res, timeout, rows_filter, roundtrip=(side == "both"))
     if side in ("reader", "both"):
         rs = check_reader(ctx, M, res, timeout, rows_filter)
+        if rows_filter is None:
+            # C03: every row; C01: the annotations fastparquet's own writer produces
+            sel = None if side == "reader" else (lambda r: annotation_key(r) in M.writer_annotations)
+            check_converts_inplace(ctx, M, res, timeout, rows_sel=sel)
     # the call-site conditions of the kernel contract: factor constant of the proved instance, int32 factor
     facs = M.ts_state.get("factors", set())
     if M.ts_state.get("calls"):
@@ -2154,6 +2167,8 @@ KNOWN = {
     "C03": [
         ("C03-P-date-outside-ns-range-wraps", _re.compile(r"^convert\.no_silent_wrap\[INT32,DATE,-\]$")),
         ("C03-P-int96-outside-ns-range-wraps", _re.compile(r"^convert\.no_silent_wrap\[INT96,-,-\]$")),
+        ("C03-P-converts-inplace-true-for-int32-widened-to-8-byte-items",
+         _re.compile(r"^converts_inplace\.true_only_when_raw_bytes_are_the_values\[INT32,(DATE|TIME_MILLIS),-\]$")),
     ],
 }
 
@@ -2170,6 +2185,8 @@ def props_of(name):
     the byte-level obligations of the text / bytes rows also C11 (encoder output is the spec's bytes and decodes back to its input)"""
     key = name[name.index("[") + 1:-1] if "[" in name else ""
     c11 = ("C11",) if key in TEXT_ROWS and name.startswith(("text.", "units.roundtrip[", "find_type.annotation_matches_written_unit[")) else ()
+    if name.startswith(("converts_inplace.", "read_data_page_v2.")):
+        return ("C03", "C01", "C11")          # which rows are posed is decided by check(side): C11 un-annotated, C01 what the writer produces
     if name.startswith("units.roundtrip") or name.startswith("converted_types.convert["):
         return ("C01",) + c11
     if name.startswith("convert."):
@@ -2272,7 +2289,22 @@ def _native_reader_case(M, row, val, scale=2):
 def replay(name, model, M=None):
     """run the real functions on the counter-model (and on the boundary values of the row) -> (confirmed, text)"""
     try:
-        if "[" not in name or name.startswith(("cencoding.time_shift", "time_factors.", "revmap.", "pdoptional_to_numpy_typemap.")):
+        if name.startswith("converts_inplace.true_only"):
+            M = M or Mods(None)
+            r2 = UResults()
+            key = name[name.index("[") + 1:-1]
+            check_converts_inplace(None, M, r2, 5000, rows_sel=lambda r: reader_row_name(r) == key)
+            e = next((e for e in r2.d.get(name, []) if e[0] == REFUTED), None)
+            return e is not None, (e[1] or {}).get("why", "") if e else "the real converts_inplace / convert behave on this row"
+        if name.startswith("converts_inplace.boolean"):
+            M = M or Mods(None)
+            bad = []
+            for cv in [None] + sorted(M.pt.ConvertedType._VALUES_TO_NAMES):
+                se = M.pt.SchemaElement(name="x", type=M.pt.Type.BOOLEAN, converted_type=cv)
+                if M.ct.converts_inplace(se):
+                    bad.append(cv)
+            return bool(bad), f"converts_inplace(SchemaElement(type=BOOLEAN, converted_type=c)) is True for c in {bad}"
+        if "[" not in name or name.startswith(("cencoding.time_shift", "time_factors.", "revmap.", "pdoptional_to_numpy_typemap.", "read_data_page_v2.")):
             return False, "no native replay for this obligation (a table entry / the .pyx kernel: the compiled extension is not rebuilt here)"
         M = M or Mods(None)
         head, key = name[:name.index("[")], name[name.index("[") + 1:-1]
@@ -2336,3 +2368,257 @@ def replay(name, model, M=None):
         return False, "no native replay for this obligation (the compiled extension is not rebuilt from the .pyx here)"
     except Exception as ex:
         return False, f"replay failed: {type(ex).__name__}: {ex}"
+
+
+# ==== converted_types.converts_inplace(se) and its call sites in core.read_data_page_v2 ========================================================
+# Contract (from what the callers do with a True answer, not from the body): read_data_page_v2 copies / decompresses the PLAIN page
+# bytes straight into the output array (dtype announced by typemap) and then calls convert(assign[...], se) DISCARDING the result;
+# the DELTA_BINARY_PACKED branch decodes straight into the output under `if converts_inplace(se)` alone.  So True is only right
+# when the in-memory bytes of the announced dtype ARE the PLAIN encoding of the values (item for item, little endian) and convert
+# is a view / in-place operation on them.  BOOLEAN (bit-packed), INT96 (12 -> 8 bytes), byte arrays (object pointers), DATE /
+# TIME_MILLIS (INT32 -> 8-byte items), DECIMAL and (U)INT_n (astype copies) are NOT of that kind.
+#   converts_inplace.boolean_is_never_inplace                   SYMBOLIC on the real source: for ALL schema elements (type, converted type,
+#                                                               logical type arbitrary) no path returns a truthy value when se.type == BOOLEAN
+#   converts_inplace.true_only_when_raw_bytes_are_the_values[R] EXECUTED on every row R of the reader table: if the real function says True,
+#       (a) PLAIN read-into site, when ITS guards admit R's output (item sizes equal [`see`, evaluated from the source], kind not O/M/m):
+#           np.empty(n, announced dtype).view('uint8')[:] = PLAIN bytes ; convert(out, se) ; out holds the logical values of the spec;
+#       (b) DELTA site (no further guard; INT32 / INT64 only): the announced item size equals the physical item size.
+#   read_data_page_v2.read_into_only_under_converts_inplace[L..] PROPOSITIONAL (z3 on the ast): the guard of every statement that stores page
+#       bytes / decoded values straight into assign implies  use_cat or converts_inplace(se)   (use_cat: categorical read of dictionary indices)
+#   read_data_page_v2.plain_read_into_guards[L..]                the guard of the PLAIN read-into statements implies `see`, output kind != 'O', not in 'Mm'
+FID_INPLACE_WIDENED = "C03-P-converts-inplace-true-for-int32-widened-to-8-byte-items"
+
+
+class SymSE:
+    """schema element with arbitrary type / converted type / logical type"""
+    tracked = False
+
+    def __init__(self, lt):
+        self.t = z3.Int("se_type")
+        self.ct_none, self.ct = z3.Bool("se_converted_type_is_None"), z3.Int("se_converted_type")
+        self.lt = lt
+
+    def attr(self, eng, p, name):
+        from vc.symexec import Opt
+        if name == "type":
+            return PyI(self.t)
+        if name == "converted_type":
+            return Opt(self.ct_none, PyI(self.ct))
+        if name == "logicalType":
+            return self.lt
+        raise Unsupported("se." + name)
+
+    def is_none(self, eng, p):
+        return z3.BoolVal(False)
+
+
+class SymLT:
+    tracked = False
+
+    def attr(self, eng, p, name):
+        from vc.symexec import Opt
+        return Opt(z3.Bool(f"logicalType_{name}_is_None"), Custom(Con(object())))
+
+    def is_none(self, eng, p):
+        return z3.BoolVal(False)
+
+
+def _bool_formula(node, defs, atoms):
+    """python boolean expression -> propositional formula; names with a recorded definition are expanded, everything else is an atom"""
+    if isinstance(node, ast.BoolOp):
+        parts = [_bool_formula(v, defs, atoms) for v in node.values]
+        return z3.And(*parts) if isinstance(node.op, ast.And) else z3.Or(*parts)
+    if isinstance(node, ast.UnaryOp) and isinstance(node.op, ast.Not):
+        return z3.Not(_bool_formula(node.operand, defs, atoms))
+    if isinstance(node, ast.Name) and node.id in defs:
+        return _bool_formula(defs[node.id], defs, atoms)
+    key = ast.unparse(node)
+    if key not in atoms:
+        atoms[key] = z3.Bool("atom:" + key)
+    return atoms[key]
+
+
+def check_converts_inplace(ctx, M, res, timeout, rows_sel=None):
+    import struct
+    cf = M.cfuncs.get("converts_inplace")
+    core, _, _ = parse_module("fastparquet/core.py")
+    v2 = core.get("read_data_page_v2")
+    if ctx is not None:
+        if cf is not None:
+            ctx.function("converted_types.converts_inplace", cf.sha, cf.report)
+        if v2 is not None:
+            ctx.function("core.read_data_page_v2", v2.sha, dict(v2.report, mode="structural: guards of the read-into statements"))
+    if cf is None or not hasattr(M.ct, "converts_inplace"):
+        res.add("converts_inplace.out_of_reach", UNKNOWN, None, 0.0, "engine", "converted_types.converts_inplace not found")
+        return
+    # ---- symbolic: BOOLEAN never in place -------------------------------------------------------------------------------------
+    BOOLEAN = M.pt.Type.BOOLEAN
+    n_paths = 0
+    try:
+        for lt in (NONE, Custom(SymLT())):
+            eng = UEngine(M.cfuncs, M.ct)
+            se = SymSE(lt)
+            outs = eng.run("converts_inplace", Path(), [Custom(se)])
+            for q in outs:
+                n_paths += 1
+                if q.ctl[0] != "ret":
+                    continue        # raising: never "in place"
+                tr = eng.truth(q.ctl[1], q)
+                st, m, secs = solve(list(q.pc) + [se.t == BOOLEAN, tr], timeout)
+                from .util import ret_line
+                res.add("converts_inplace.boolean_is_never_inplace", st,
+                        _model(m, se_type="BOOLEAN", converted_type_is_None=se.ct_none, converted_type=se.ct, return_line=ret_line(q)), secs, "z3",
+                        "real source, se.type / converted_type / logicalType arbitrary: no returning path yields a truthy value when "
+                        "se.type == BOOLEAN (PLAIN booleans are bit-packed, 8 per byte: the page bytes are never the bool array)")
+        st, _, _ = solve([z3.Int("se_type") == BOOLEAN], timeout)
+        res.vac["requires_sat"] += 1 if st == REFUTED else 0
+    except Unsupported as ex:
+        res.add("converts_inplace.boolean_is_never_inplace", UNKNOWN, None, 0.0, "engine", f"out of reach: {ex}")
+    # ---- structural: the call sites -------------------------------------------------------------------------------------------------
+    see_expr = None
+    if v2 is None:
+        res.add("read_data_page_v2.out_of_reach", UNKNOWN, None, 0.0, "ast", "core.read_data_page_v2 not found")
+    else:
+        defs = {}
+        for n in ast.walk(v2.tree):
+            if isinstance(n, ast.Assign) and len(n.targets) == 1 and isinstance(n.targets[0], ast.Name) and n.targets[0].id in ("into0", "into", "see"):
+                if n.targets[0].id in defs:
+                    defs[n.targets[0].id] = None          # assigned twice: not a definition
+                else:
+                    defs[n.targets[0].id] = n.value
+        see_expr = defs.pop("see", None)
+        defs = {k: v for k, v in defs.items() if v is not None}
+        sites = []
+
+        def walk(stmts, guard):
+            for st_ in stmts:
+                if isinstance(st_, ast.If):
+                    walk(st_.body, guard + [(st_.test, True)])
+                    walk(st_.orelse, guard + [(st_.test, False)])
+                    continue
+                if isinstance(st_, (ast.For, ast.While, ast.With, ast.Try)):
+                    for fld in ("body", "orelse", "finalbody"):
+                        walk(getattr(st_, fld, []) or [], guard)
+                    continue
+                txt = ast.unparse(st_)
+                kind = None
+                if isinstance(st_, ast.Assign) and ".view('uint8')" in ast.unparse(st_.targets[0]) and "assign" in ast.unparse(st_.targets[0]) \
+                        and "infile.read(" in ast.unparse(st_.value):
+                    kind = "plain"
+                elif isinstance(st_, ast.Expr) and isinstance(st_.value, ast.Call) and txt.startswith("decomp(") and "assign[" in txt:
+                    kind = "plain"
+                elif isinstance(st_, ast.Expr) and "delta_binary_unpack(" in txt and "NumpyIO(assign[" in txt:
+                    kind = "delta"
+                if kind:
+                    sites.append((st_.lineno, kind, guard, txt))
+        walk(v2.tree.body, [])
+        if not [s for s in sites if s[1] == "plain"] or not [s for s in sites if s[1] == "delta"]:
+            res.add("read_data_page_v2.read_into_sites_found", UNKNOWN, {"sites": [(s[0], s[1]) for s in sites]}, 0.0, "ast",
+                    "the statements that store page bytes / decoded values straight into the output were not recognised (shape changed)")
+        for ln, kind, guard, txt in sites:
+            atoms = {}
+            g = z3.And(*[(_bool_formula(t, defs, atoms) if pos else z3.Not(_bool_formula(t, defs, atoms))) for t, pos in guard]) if guard else z3.BoolVal(True)
+            ci = atoms.get("converts_inplace(se)")
+            uc = atoms.get("use_cat", z3.BoolVal(False))
+            goal = z3.Or(uc, ci) if ci is not None else z3.BoolVal(False)
+            st, m, secs = solve([g, z3.Not(goal)], timeout)
+            res.add(f"read_data_page_v2.read_into_only_under_converts_inplace[{kind}@L{ln}]", st,
+                    {"guard_atoms_true": [k for k, a in atoms.items() if m is not None and z3.is_true(m.eval(a, model_completion=True))]} if m is not None else None,
+                    secs, "z3 (propositional, on the ast)", f"`{txt[:90]}` is reached only when use_cat or converts_inplace(se) (guard: "
+                    + " and ".join(("" if pos else "not ") + "(" + ast.unparse(t)[:60] + ")" for t, pos in guard) + "; into / into0 expanded)")
+            if kind == "plain":
+                want = [k for k in atoms if k == "see" or k.replace('"', "'") in ("assign.dtype.kind != 'O'", "assign.dtype.kind not in 'Mm'")]
+                ok3 = len(want) == 3
+                goal = z3.And(*[atoms[k] for k in want]) if ok3 else z3.BoolVal(False)
+                # `see` stands under `converts_inplace(se) and see`: required on the non-categorical disjunct only
+                goal = z3.Or(uc, goal) if ok3 else goal
+                goal2 = z3.And(*[atoms[k] for k in want if k != "see"]) if ok3 else z3.BoolVal(False)
+                st, m, secs = solve([g, z3.Not(z3.And(goal, goal2))], timeout)
+                res.add(f"read_data_page_v2.plain_read_into_guards[L{ln}]", st, None, secs, "z3 (propositional, on the ast)",
+                        "the PLAIN read-into statement is reached only with an output whose kind is not 'O' and not in 'Mm', and (outside "
+                        "categorical reads) with `see`: input and output item sizes match")
+    # ---- executed: the table ---------------------------------------------------------------------------------------------------------------
+    simple = getattr(M.ct, "simple", {})
+    for row in reader_rows():
+        R = reader_row_name(row)
+        if rows_sel is not None and not rows_sel(row):
+            continue
+        name = f"converts_inplace.true_only_when_raw_bytes_are_the_values[{R}]"
+        t0 = time.time()
+        se = make_se(M.pt, row)
+        f = se_facts(M.pt, se)
+        try:
+            ans = M.ct.converts_inplace(se)
+        except Exception as ex:
+            res.add(name, PROVED, None, time.time() - t0, "enumeration", f"converts_inplace raises {type(ex).__name__}: never 'in place'")
+            continue
+        if not ans:
+            res.add(name, PROVED, None, time.time() - t0, "enumeration", f"{R}: False - the page is decoded by read_plain and copied")
+            continue
+        try:
+            dt = np.dtype(predicted_dtype(M, se))
+        except Exception as ex:
+            res.add(name, UNKNOWN, None, time.time() - t0, "enumeration", f"typemap refuses: {ex}")
+            continue
+        ptn = row["type"]
+        vals = reader_boundary(row) or ([True, False, True, True, False, False, False, True, True, False, True] if ptn == "BOOLEAN" else [])
+        # PLAIN encoding of the boundary values, written here from the format description
+        if ptn == "BOOLEAN":
+            plain = bytes(sum((1 << i) for i, v in enumerate(vals[k:k + 8]) if v) for k in range(0, len(vals), 8))
+        elif ptn == "INT96":
+            plain = b"".join(struct.pack("<qi", v["ns"], v["day"]) for v in vals)
+        elif ptn in PHYS_DT:
+            plain = np.array(vals, dtype=PHYS_DT[ptn]).tobytes()
+        else:
+            vals = [b"ab", b"", b"xyz\x00"] if ptn == "BYTE_ARRAY" else [b"abcd", b"\x00\x01\x02\x03"]
+            plain = b"".join((struct.pack("<i", len(x)) if ptn == "BYTE_ARRAY" else b"") + x for x in vals)
+        n = len(vals)
+        assign = np.empty(n, dtype=dt)
+        # (a) the PLAIN read-into site, under ITS guards evaluated on this output
+        try:
+            see = bool(eval(compile(ast.Expression(see_expr), "<see>", "eval"), {"se": se, "assign": assign, "simple": simple, "np": np})) \
+                if see_expr is not None else True
+        except Exception:
+            see = True
+        admitted = see and dt.kind != "O" and dt.kind not in "Mm"
+        why = None
+        if admitted:
+            try:
+                with warnings.catch_warnings(), np.errstate(all="ignore"):
+                    warnings.simplefilter("ignore")
+                    assign.view("uint8")[:] = np.frombuffer(plain, dtype="uint8")
+                    M.ct.convert(assign, se)                      # result discarded, as in the source
+                if ptn == "BOOLEAN":
+                    got, exp = [bool(x) for x in assign], [bool(x) for x in vals]
+                elif ptn in PHYS_DT and ptn != "INT96":
+                    exp = []
+                    for v in vals:
+                        x = z3.IntVal(int(v)) if np.dtype(PHYS_DT[ptn]).kind != "f" else z3.Q(*fractions.Fraction(float(v)).as_integer_ratio())
+                        try:
+                            exp.append(_pyval(spec_meaning(f, x)[1]))
+                        except Unsupported:
+                            exp.append(int(v) if np.dtype(PHYS_DT[ptn]).kind != "f" else fractions.Fraction(float(v)))
+                    got = []
+                    for y in assign:
+                        b = int(np.asarray(y).view("i8")) if dt.kind in "Mm" else (fractions.Fraction(float(y)) if dt.kind == "f" else int(y))
+                        got.append(_pyval(pandas_meaning(dt, z3.IntVal(b) if dt.kind != "f" else z3.Q(b.numerator, b.denominator))[1]))
+                else:
+                    got, exp = None, "?"
+                if got != exp:
+                    why = f"PLAIN read-into: {n} values {vals[:6]} encoded as {plain[:12].hex()}.. copied into {dt} give {list(assign[:6])}"
+            except Exception as ex:
+                why = f"PLAIN read-into: copying the {len(plain)} PLAIN bytes of {n} values into {n} x {dt} raises {type(ex).__name__}: {str(ex)[:80]}"
+        # (b) the DELTA site: guarded by converts_inplace(se) alone
+        why_b = None
+        if ptn in ("INT32", "INT64") and dt.itemsize != np.dtype(PHYS_DT[ptn]).itemsize:
+            why_b = (f"DELTA_BINARY_PACKED branch (guard: converts_inplace(se) only): {ptn} values are decoded straight into {dt} items of "
+                     f"{dt.itemsize} bytes, then convert(assign, se) runs on that array")
+        det = (f"{R}: True; announced dtype {dt}; PLAIN read-into " + ("admitted by its guards (see, kind): the PLAIN bytes copied into the output, "
+               "then convert in place, are the spec's values" if admitted else
+               f"excluded by its guards (see={see}, output kind {dt.kind!r}; posed as read_data_page_v2.plain_read_into_guards): nothing claimed there")
+               + ("; DELTA site (guard: converts_inplace only): announced item size == physical item size" if ptn in ("INT32", "INT64") else ""))
+        if why or why_b:
+            res.add(name, REFUTED, {"converts_inplace": True, "announced_dtype": str(dt), "why": why or why_b, "site": "plain" if why else "delta"},
+                    time.time() - t0, "enumeration", det)
+        else:
+            res.add(name, PROVED, None, time.time() - t0, "enumeration", det)
